@@ -23,8 +23,9 @@ EpProviders == UNION {[1..n -> [addrs : 0..1, md : {"empty", "short"}, self : BO
 Ads == [kind : {"ad"}, prov : {"b58", "cidform", "text"}, prev : BOOLEAN, addrs : 0..MaxList, ctx : Sizes, md : Sizes, rm : BOOLEAN, entries : {"noentries", "link"},
         ext : {"absent"} \cup {"present"}, ov : BOOLEAN, eps : EpProviders]
 WellFormedAd(a) == (a.ext = "absent" => (a.eps = <<>> /\ ~a.ov)) /\ ~(a.rm /\ a.ext = "present" /\ a.ov)
-Chunks == [kind : {"chunk"}, n : 0..3 \cup {16384}, mixed : BOOLEAN, next : BOOLEAN]      \* 16384: a full-size chunk (over 1 MiB in DAG-JSON)
-WellFormedChunk(c) == c.mixed => c.n >= 2
+(* ent: the first entry is a multihash, a bare digest, or empty -- the schema says Bytes, and a chunk is stored and read back as it is *)
+Chunks == [kind : {"chunk"}, n : 0..3 \cup {16384}, mixed : BOOLEAN, next : BOOLEAN, ent : {"multihash", "bare", "empty"}]      \* 16384: a full-size chunk (over 1 MiB in DAG-JSON)
+WellFormedChunk(c) == (c.mixed => c.n >= 2) /\ (c.ent # "multihash" => c.n \in 1..3)
 Codecs == {"dag-json", "dag-cbor"}
 
 Put(v, codec) == <<codec, v>>
